@@ -1,0 +1,52 @@
+//go:build verif
+
+package sfnt
+
+import (
+	"seehuhn.de/go/sfnt/cff"
+	"seehuhn.de/go/sfnt/cmap"
+	"seehuhn.de/go/sfnt/glyf"
+	"seehuhn.de/go/sfnt/glyph"
+)
+
+// Hooks for part C10B of the C10 verification harness (add-only, thin
+// wrappers around the unexported subsetter).
+
+// verifC10BState builds the subsetter state (*Font).Subset starts from for the
+// glyph list glyphs, and then registers extras with getNewGid, the way
+// SubsetGsub registers the glyphs that substitution rules produce.
+func verifC10BState(glyphs, extras []glyph.ID) *subsetter {
+	s := &subsetter{
+		glyphs: append([]glyph.ID(nil), glyphs...),
+		newGid: map[glyph.ID]glyph.ID{},
+	}
+	for newgid, oldGid := range glyphs {
+		s.newGid[oldGid] = glyph.ID(newgid)
+	}
+	for _, g := range extras {
+		s.getNewGid(g)
+	}
+	return s
+}
+
+// VerifC10BSubsetCFF calls (*subsetter).SubsetCFF and returns the new
+// outlines together with the final s.glyphs.
+func VerifC10BSubsetCFF(o *cff.Outlines, glyphs, extras []glyph.ID) (*cff.Outlines, []glyph.ID) {
+	s := verifC10BState(glyphs, extras)
+	res := s.SubsetCFF(o)
+	return res, s.glyphs
+}
+
+// VerifC10BSubsetGlyf calls (*subsetter).SubsetGlyf and returns the new
+// outlines together with the final s.glyphs and s.newGid.
+func VerifC10BSubsetGlyf(o *glyf.Outlines, glyphs, extras []glyph.ID) (*glyf.Outlines, []glyph.ID, map[glyph.ID]glyph.ID) {
+	s := verifC10BState(glyphs, extras)
+	res := s.SubsetGlyf(o)
+	return res, s.glyphs, s.newGid
+}
+
+// VerifC10BSubsetCMap calls (*subsetter).SubsetCMap.
+func VerifC10BSubsetCMap(c cmap.Subtable, glyphs []glyph.ID) cmap.Subtable {
+	s := verifC10BState(glyphs, nil)
+	return s.SubsetCMap(c)
+}
